@@ -48,17 +48,32 @@ fn c10_sampled_chance_cache() {
     kani::cover!(a == 0, "outcome 0 drawn");
     kani::cover!(a == 2, "outcome 2 drawn");
     assert!(a < 3, "C10 chance: sampled outcome out of range");
-    assert!(d1 == d0 + 1, "C10 chance: first sample of a pass must draw exactly once");
-    assert!(a == unsafe { DRAW_RES[d0] }, "C10 chance: sample does not return the drawn outcome");
-    assert!(d2 == d1 && b == a && b2 == a, "C10 chance: later samples in a pass differ from the first or draw again");
+    assert!(
+        d1 == d0 + 1,
+        "C10 chance: first sample of a pass must draw exactly once"
+    );
+    assert!(
+        a == unsafe { DRAW_RES[d0] },
+        "C10 chance: sample does not return the drawn outcome"
+    );
+    assert!(
+        d2 == d1 && b == a && b2 == a,
+        "C10 chance: later samples in a pass differ from the first or draw again"
+    );
     sc.reset();
     let c = sc.sample();
     let d3 = unsafe { DRAWS };
     let e = sc.sample();
     kani::cover!(c != a, "different outcome in the next pass");
     assert!(d3 == d2 + 1, "C10 chance: no fresh draw after reset");
-    assert!(c == unsafe { DRAW_RES[d2] }, "C10 chance: sample after reset does not return the fresh draw");
-    assert!(e == c && unsafe { DRAWS } == d3, "C10 chance: later samples in the second pass differ or draw again");
+    assert!(
+        c == unsafe { DRAW_RES[d2] },
+        "C10 chance: sample after reset does not return the fresh draw"
+    );
+    assert!(
+        e == c && unsafe { DRAWS } == d3,
+        "C10 chance: later samples in the second pass differ or draw again"
+    );
     core::mem::forget(sc);
 }
 
